@@ -24,6 +24,7 @@ from .values import (
     to_number,
     to_string,
     join_array,
+    JSBoundMethod,
     js_typeof,
     js_pow,
     norm_number,
@@ -2518,6 +2519,10 @@ class VM:
 
         if isinstance(callee, JSFunction):
             self._invoke_js_function(callee, args, this_val or UNDEFINED)
+        elif isinstance(callee, JSBoundMethod):
+            # A built-in prototype method called as a plain function: this is undefined
+            result = callee(UNDEFINED if this_val is None else this_val, *args)
+            self.stack.append(native_result(result))
         elif callable(callee):
             # Native function
             result = callee(*args)
